@@ -289,6 +289,23 @@ func TestVerifC27Exhaustive(t *testing.T) {
 					}
 				}
 			}
+			// every one of the 2^16 ids that is not in the table must give nil for both roles
+			nilSec := vf27DetSecrets(7)
+			for x := 0; x < 1<<16; x++ {
+				id := uint16(x)
+				if have[id] {
+					continue
+				}
+				for _, vers := range []uint16{VersionTLS12} {
+					st.Eval()
+					cli := MakeConnWithCompleteHandshake(nil, vers, id, nilSec.master, nilSec.cr, nilSec.sr, true)
+					srv := MakeConnWithCompleteHandshake(nil, vers, id, nilSec.master, nilSec.cr, nilSec.sr, false)
+					if cli != nil || srv != nil {
+						st.Violation(t, "weak=%v unsupported id %#04x vers %#04x: want nil, got client=%v server=%v", weak, id, vers, cli != nil, srv != nil)
+					}
+				}
+			}
+			st.Class("unsupported-id-exhaustive")
 			for _, cs := range append([]*cipherSuite(nil), utlsSupportedCipherSuites...) {
 				in, known := vf27Info(cs)
 				if !known {
